@@ -39,6 +39,7 @@ import SwcVerif.Model.AlgoRunSholl
 import SwcVerif.Model.AlgoRunNodeFeat
 import SwcVerif.Model.AlgoRunResample
 import SwcVerif.Model.AlgoRunRaster
+import SwcVerif.Model.AlgoRunImgIo
 import SwcVerif.Model.AlgoRunParse
 import SwcVerif.Model.AlgoRunCut
 import SwcVerif.Model.AlgoRunRepair
@@ -107,6 +108,7 @@ def dispatch (op : String) (args : List String) : String :=
   | "gpoprows" | "gpoprows3" => AlgoRun.handlePopRows (op == "gpoprows3") args
   | "giso" | "glin" | "gsmooth" => AlgoRun.handleResample op args
   | "gsamplers" | "gscene" | "graster" => AlgoRun.handleRaster op args
+  | "gimgsave" | "gimgload" | "gimgnd" | "gimgio" | "gimgget" => AlgoRun.handleImgIo op args
   | "gparse" => AlgoRun.handleParse args
   | "gtosubtree" | "gcutenter" | "gcutdepth" | "gcutleave" | "gcutleaveset" | "gcuttype" | "gcutorder" => AlgoRun.handleCut op args
   | "gsingleroot" => AlgoRun.handleSingleRoot args
